@@ -9,3 +9,5 @@ import Discv5Model.Props.C10
 import Discv5Model.Props.C07
 import Discv5Model.Props.C08
 import Discv5Model.Props.C16
+import Discv5Model.Props.C20
+import Discv5Model.Props.C13
